@@ -45,6 +45,26 @@ construct_sub_strides(const SrcMapping &src_mapping,
        static_cast<index_type>(src_mapping.stride(InvMapIdxs)) *
        static_cast<index_type>(std::get<InvMapIdxs>(slices_stride_factor)))...};
 }
+
+// An empty slice may start at the end of its extent.  Its lower bound is then not a valid
+// index, and mapping(first_of(slices)...) would overshoot required_span_size() or overflow;
+// the offset of such an (empty) sub-view is required_span_size() instead (LWG 4060).
+template <class IndexType, size_t... Extents, size_t... RankIndices, class... Slices>
+MDSPAN_INLINE_FUNCTION
+constexpr bool any_slice_out_of_bounds_helper(
+    std::index_sequence<RankIndices...>,
+    const extents<IndexType, Extents...> &exts, const Slices &... slices) {
+  return _MDSPAN_FOLD_OR(
+      (static_cast<IndexType>(first_of(slices)) == exts.extent(RankIndices)));
+}
+
+template <class IndexType, size_t... Extents, class... Slices>
+MDSPAN_INLINE_FUNCTION
+constexpr bool any_slice_out_of_bounds(
+    const extents<IndexType, Extents...> &exts, const Slices &... slices) {
+  return any_slice_out_of_bounds_helper(
+      std::make_index_sequence<sizeof...(Slices)>(), exts, slices...);
+}
 } // namespace detail
 
 //**********************************
@@ -117,7 +137,10 @@ layout_left::mapping<Extents>::submdspan_mapping_impl(SliceSpecifiers... slices)
     // layout_left case
     return submdspan_mapping_result<dst_mapping_t>{
         dst_mapping_t(dst_ext),
-        static_cast<size_t>(this->operator()(detail::first_of(slices)...))};
+        static_cast<size_t>(
+            detail::any_slice_out_of_bounds(this->extents(), slices...)
+                ? this->required_span_size()
+                : this->operator()(detail::first_of(slices)...))};
   } else {
     // layout_stride case
     auto inv_map = detail::inv_map_rank(
@@ -134,7 +157,10 @@ layout_left::mapping<Extents>::submdspan_mapping_impl(SliceSpecifiers... slices)
     #else
                                    std::tuple{detail::stride_of(slices)...})),
     #endif
-        static_cast<size_t>(this->operator()(detail::first_of(slices)...))};
+        static_cast<size_t>(
+            detail::any_slice_out_of_bounds(this->extents(), slices...)
+                ? this->required_span_size()
+                : this->operator()(detail::first_of(slices)...))};
   }
 #if defined(__NVCC__) && !defined(__CUDA_ARCH__) && defined(__GNUC__)
   __builtin_unreachable();
@@ -224,7 +250,10 @@ layout_right::mapping<Extents>::submdspan_mapping_impl(
     // layout_right case
     return submdspan_mapping_result<dst_mapping_t>{
         dst_mapping_t(dst_ext),
-        static_cast<size_t>(this->operator()(detail::first_of(slices)...))};
+        static_cast<size_t>(
+            detail::any_slice_out_of_bounds(this->extents(), slices...)
+                ? this->required_span_size()
+                : this->operator()(detail::first_of(slices)...))};
   } else {
     // layout_stride case
     auto inv_map = detail::inv_map_rank(
@@ -241,7 +270,10 @@ layout_right::mapping<Extents>::submdspan_mapping_impl(
     #else
                                    std::tuple{detail::stride_of(slices)...})),
     #endif
-        static_cast<size_t>(this->operator()(detail::first_of(slices)...))};
+        static_cast<size_t>(
+            detail::any_slice_out_of_bounds(this->extents(), slices...)
+                ? this->required_span_size()
+                : this->operator()(detail::first_of(slices)...))};
   }
 #if defined(__NVCC__) && !defined(__CUDA_ARCH__) && defined(__GNUC__)
   __builtin_unreachable();
@@ -285,7 +317,10 @@ layout_stride::mapping<Extents>::submdspan_mapping_impl(
 #else
                                  std::tuple(detail::stride_of(slices)...))),
 #endif
-      static_cast<size_t>(this->operator()(detail::first_of(slices)...))};
+      static_cast<size_t>(
+            detail::any_slice_out_of_bounds(this->extents(), slices...)
+                ? this->required_span_size()
+                : this->operator()(detail::first_of(slices)...))};
 }
 
 } // namespace MDSPAN_IMPL_STANDARD_NAMESPACE
